@@ -232,8 +232,25 @@ def gen_seq(ctx, rng):
         else:
             rows = [[float(centre + j)] * dim for j in range(max(2, k))]
         batches.append(rows)
+    # dtype of the array handed to set_reference: the reference may be integer-valued / single precision while the
+    # batches are doubles (the values of the reference are then chosen exactly representable in that dtype)
+    ref, ref_dtype, u = batches[0], "float64", rng.random()
+    if u < 0.3:
+        cand = [[float(round(v)) for v in r] for r in ref]
+        if len(set(tup(cand))) >= k:
+            ref, ref_dtype = cand, "int64"
+    elif u < 0.5 and style == "float":      # (Gaussian batches are never single-precision values)
+        cand = [[round(v * 8) / 8 for v in r] for r in ref]
+        if len(set(tup(cand))) >= k:
+            ref, ref_dtype = cand, "float32"
+    if ref_dtype == "int64" and style == "grid":      # make sure some batch is not integer-valued: a dyadic shift
+        # (exact in double arithmetic, so exact distance ties stay exact ties and nothing becomes a near-tie)
+        j = rng.randrange(len(batches) - 1) + 1
+        sh = rng.choice([0.25, -0.5, 0.75])
+        batches[j] = [[v + sh for v in r] for r in batches[j]]
+    ctx.stats["seq_ref_dtype_" + ref_dtype] = ctx.stats.get("seq_ref_dtype_" + ref_dtype, 0) + 1
     return {"kind": "seq", "k": k, "dim": dim, "sampling_times": rng.choice([1, 2, 5, 5, 20, 20, 20, 50, 50]),
-            "alpha": rng.choice([0.01, 0.05, 0.2, 0.4, 0.7]), "ref": batches[0], "batches": batches[1:],
+            "alpha": rng.choice([0.01, 0.05, 0.2, 0.4, 0.7]), "ref": ref, "batches": batches[1:], "ref_dtype": ref_dtype,
             "seed": rng.randint(0, 2 ** 31 - 1)}
 
 
@@ -322,7 +339,7 @@ def run_impl(case):
                     pass
         return obs
     det = NNDVI(k_nn=k, sampling_times=case["sampling_times"], alpha=case["alpha"])
-    R = arr(case["ref"], dim)
+    R = arr(case["ref"], dim).astype(case.get("ref_dtype", "float64"))
     det.set_reference(R)
     R[...] = 12345.678      # the caller overwrites what it handed over: "exactly the given batches" must not depend on it
     steps = []
@@ -618,7 +635,7 @@ def shrink_candidates(case):
         b = case["batches"]
         if len(b) > 1:
             yield dict(case, batches=b[:-1])
-            yield dict(case, ref=b[0], batches=b[1:])
+            yield dict(case, ref=b[0], batches=b[1:], ref_dtype="float64")     # a batch is a double array
         for j in range(len(b)):
             if len(b[j]) > max(2, case["k"]):
                 for i in range(len(b[j])):
